@@ -79,7 +79,7 @@ class C12(Scenario):
         "quick": [("uniform", 4), ("digit-boundary", 4), ("multi-mesh", 3), ("salt", 4), ("warm", 2), ("shared-measure", 3), ("faulty-noise", 2), ("demo", 1)],
         "thorough": [("uniform", 4), ("digit-boundary", 4), ("multi-mesh", 3), ("salt", 4), ("warm", 2), ("shared-measure", 3), ("faulty-noise", 3), ("demo", 1), ("deep", 2)],
     }
-    runs = {"quick": 1500, "thorough": 40000}
+    runs = {"quick": 1500, "thorough": 60000}
     wall = {"quick": 75, "thorough": 1300}
     rule = (
         "one run = one generated UFL build program (env, terminals, 1-3 forms, 0-4 derived forms via public "
@@ -111,7 +111,7 @@ class C12(Scenario):
             fam["shape_derivative"] = 0.35
             fam["mixed_space"] = 0.3
             fam["flat_form"] = 0.1
-            cfg["n_coef"] = rng.randint(2, 4)
+            cfg["n_coef"] = rng.randint(3, 4)
         elif arm == "shared-measure":
             # program and noise both integrate with the module-level measures; the noise is
             # algorithm-heavy (earlier, unrelated work in the same process)
